@@ -7,7 +7,7 @@ from props import wire
 TRUSTED = BASE_TRUSTED + ["distinctness / seed dependence / difference from g are properties of SHA-512 outputs: established by kernel computation for concrete seeds (Properties/C17.v) and observed on the implementation, never assumed",
                           "ristretto: SHAKE-256 and the Elligator map from_uniform_bytes are modelled in Gallina (Model/Keccak.v, Model/Ristretto.v) and tied by correspondence; Python hashlib + dalek's own from_uniform_bytes are a second, independent reference in the battery"]
 RULE = ("Ctx::generators for seeds '', short, 1 kB and counts 0..64 (quick) / 2000 (thorough) at 2048 bits, 0..300 at 62 bits and on "
-        "small sets where the `< 2` retry branch is reachable: every list equals the Gallina derivation (SHA-512 over seed||'ggen'||index||count "
+        "small sets where the `< 2` retry branch is reachable, 1100 (thorough 4200) generators on p=2039 against the hashlib reference: every list equals the Gallina derivation (SHA-512 over seed||'ggen'||index||count "
         "with pairs appended on retries, mod p, squared); battery: prefix stability, membership via decode, distinctness and "
         "difference from g at >= 62 bits, different seeds give different lists; ristretto: recomputed from SHAKE-256 via hashlib + "
         "dalek from_uniform_bytes, distinct, decodable, non-identity")
@@ -41,7 +41,7 @@ def run(env):
     seeds = ["x:", "x:73656564", "x:ff", "x:fe", "x:c328a0a1", hexb(r.randbytes(1024))]
     plan = []
     for fl in "BM":
-        for pstr, counts in (("23", [0, 1, 5, 40]), ("47", [30]), ("2039", [0, 3, 200 if not env.quick else 60]), (str(P62), [0, 1, 2, 300 if not env.quick else 100]),
+        for pstr, counts in (("23", [0, 1, 5, 40]), ("47", [30]), ("2039", [0, 3, 200 if not env.quick else 60, 1100] + ([4200] if not env.quick else [])), (str(P62), [0, 1, 2, 300 if not env.quick else 100] + ([2100] if not env.quick else [])),
                              ("2048", [0, 1, 64] if env.quick else [0, 1, 64, 2000])):
             for n in counts:
                 for sd in (seeds if n <= 100 else seeds[:1]):
@@ -55,7 +55,7 @@ def run(env):
         ctx = c["ctx"]; P_, q_, g_ = pq(ctx)
         if not isinstance(o, list):
             env.violation("generators(%d) failed on %s: %s" % (c["_n"], ctx, o), {"kind": "battery", "case": c, "out": o}); continue
-        if not (ctx.endswith("2048") and c["_n"] > 64):
+        if not (ctx.endswith("2048") and c["_n"] > 64) and c["_n"] <= 300:
             items.append((c, ctx, "generators", c["args"], o))
         if len(o) != c["_n"]:
             env.violation("generators returned %d items for count %d on %s" % (len(o), c["_n"], ctx), {"kind": "battery", "case": c})
@@ -67,7 +67,7 @@ def run(env):
         if big and (len(set(vals)) != len(vals) or g_ in vals):
             env.violation("derived generators not pairwise distinct / equal to the standard generator on %s" % ctx, {"kind": "battery", "case": c})
         byk.setdefault((ctx, c["args"][1]), []).append(o)
-        if c["_n"] <= 300:
+        if c["_n"] <= 5000:
             ref = ref_generators(ctx, c["_n"], wire.unhx(c["args"][1]))
             if vals != ref:
                 k = next((i for i, (a, b) in enumerate(zip(vals, ref)) if a != b), min(len(vals), len(ref)))
@@ -91,11 +91,10 @@ def run(env):
             env.violation("generators differ between processes on %s" % c["ctx"], {"kind": "battery", "case": c})
     fails = env.tie(items, "C17", shard=6)
     # ristretto against SHAKE-256 (hashlib) + dalek's from_uniform_bytes
-    for sd in (b"", b"seed", b"\xff", r.randbytes(1024)):
-        n = 40 if env.quick else 2000
+    for sd, n in ((b"", 40 if env.quick else 2000), (b"seed", 40 if env.quick else 2000), (b"\xff", 40), (r.randbytes(1024), 40), (b"large", 1100 if env.quick else 5000)):
         o = env.harness([{"ctx": "R", "op": "generators", "args": [str(n), hexb(sd)], "tag": "ristretto"}])[0]
         stream = hashlib.shake_256(sd).digest(64 * n)
-        ref = env.harness([{"ctx": "R", "op": "raw_from_uniform", "args": [hexb(stream[64 * i: 64 * i + 64])], "tag": "ristretto-ref"} for i in range(min(n, 200))])
+        ref = env.harness([{"ctx": "R", "op": "raw_from_uniform", "args": [hexb(stream[64 * i: 64 * i + 64])], "tag": "ristretto-ref"} for i in range(min(n, 200 if n != 1100 else 1100))])
         if o[:len(ref)] != ref:
             env.violation("ristretto generators differ from SHAKE-256(seed) chunks mapped by from_uniform_bytes", {"kind": "battery", "case": {"ctx": "R", "op": "generators", "args": [str(n), hexb(sd)]}})
         ident = "x:" + "00" * 32
